@@ -476,7 +476,8 @@ func checkC15(p *Program, r *Report) {
 					bad = append(bad, "unresolved origin")
 					continue
 				}
-				if g, vobj, ok := bufferOf(fn, v, kt.Type(), Z); ok && vobj != tobj {
+				// any buffer held by another key, wiped or not: Zero writes the bytes of this field in place
+				if g, vobj, ok := bufferOf(fn, v, kt.Type(), allByteFields(st)); ok && vobj != tobj {
 					bad = append(bad, fmt.Sprintf("buffer %s of another key (%s)", g, v))
 				}
 			}
@@ -667,4 +668,17 @@ func shortObj(s string) string {
 		return "the receiver"
 	}
 	return s
+}
+
+// allByteFields lists every []byte field of a struct (fields added later are covered too).
+func allByteFields(st *types.Struct) map[string]bool {
+	out := map[string]bool{}
+	for i := 0; i < st.NumFields(); i++ {
+		if sl, ok := st.Field(i).Type().Underlying().(*types.Slice); ok {
+			if b, ok := sl.Elem().Underlying().(*types.Basic); ok && b.Kind() == types.Uint8 {
+				out[st.Field(i).Name()] = true
+			}
+		}
+	}
+	return out
 }
